@@ -26,7 +26,12 @@ Theorem C17_field_value_roundtrip :
 Proof. exact field_value_roundtrip. Qed.
 Print Assumptions C17_field_value_roundtrip.
 
-(* Single insert.  [ms] is what `$T.*` / `&T.*` expand to (the tagged fields
+(* In the round-trip theorems the number of columns of the type fits a Go int
+   ([max_int] = 2^63-1: the aliases _sqlair_<n> are read back with
+   strconv.Atoi, which rejects larger numbers; no Go struct type has that many
+   fields).
+
+   Single insert.  [ms] is what `$T.*` / `&T.*` expand to (the tagged fields
    in sorted tag order); [star_insert ms] are the typed columns of
    `(*) VALUES ($T.*)`.  Binding the value v gives columns = the tags whose
    field is not (omitempty and zero), one tuple of driver values; inserting it
@@ -38,6 +43,7 @@ Theorem C17_roundtrip_single :
   forall env t pt tags fields ms v v0 cnt used,
     get_arg_info env t = BOk (StructInfo t tags fields) ->
     get_all_struct_members (StructInfo t tags fields) = BOk ms ->
+    (N.of_nat (length ms) <= max_int)%N ->
     t_kind (tget env pt) = KPtr -> t_elem (tget env pt) = t ->
     (forall f, In f fields -> field_ok env t v f) ->
     (forall f, In f fields -> field_by_index v0 (sf_index f) <> None) ->
@@ -62,6 +68,7 @@ Theorem C17_roundtrip_bulk :
   forall env t st pt tags fields ms nl vs cnt used,
     get_arg_info env t = BOk (StructInfo t tags fields) ->
     get_all_struct_members (StructInfo t tags fields) = BOk ms ->
+    (N.of_nat (length ms) <= max_int)%N ->
     t_kind (tget env pt) = KPtr -> t_elem (tget env pt) = t ->
     bulk_slice_type env t st ->
     vs <> [] -> Forall is_struct_val vs ->
@@ -192,6 +199,7 @@ Theorem C17_roundtrip_single_statement :
   forall env t pt tags fields ms v v0 q,
     get_arg_info env t = BOk (StructInfo t tags fields) ->
     get_all_struct_members (StructInfo t tags fields) = BOk ms ->
+    (N.of_nat (length ms) <= max_int)%N ->
     t_kind (tget env pt) = KPtr -> t_elem (tget env pt) = t ->
     (forall f, In f fields -> field_ok env t v f) ->
     (forall f, In f fields -> field_by_index v0 (sf_index f) <> None) ->
